@@ -24,6 +24,7 @@ import (
 type c20In struct {
 	Src  string `json:"src"`
 	Mode string `json:"mode"` // tokens | rules | decl
+	Fam  string `json:"fam,omitempty"`
 }
 
 // representative tokens for the exhaustive adjacency sweep
@@ -32,12 +33,22 @@ var c20Repr = []string{
 	"U+1F", "u+4??", "#", "@", ".", "+", "/", "*", "|", "~", "^", "$", "=", "?", "%", "<", "!", ">", ":", ",", ";", "&", "(", "[x]", "{}", "()", " ", "\n", "/**/", "-->", "<!--", "\\\n", "||", "|=", "é", "\\31 a", "\\d", "9",
 }
 
+// focused triples (both tiers): tokens whose fusion needs three parties — a name, a sign or dot, and
+// something that continues a number, an exponent or a unicode-range (u+a, 1e-3, 1.5, -.5 …)
+var (
+	c20FocusA = []string{"u", "U", "a", "e", "E", "1", "1e", "1E", "-", "#", "@", "--", ".", "1px", "\\-"}
+	c20FocusB = []string{"+", "-", "?", ".", "e", "E", "%"}
+	c20FocusC = []string{"a", "A", "1", "?", "1F", "-1", "e3", "+1", ".5", "a-b", "1e3"}
+)
+
+func c20Focus() int { return 4 * len(c20FocusA) * len(c20FocusB) * len(c20FocusC) }
+
 func c20Exhaustive(tier string) int {
 	n := len(c20Repr)
 	if tier == "thorough" {
-		return 2*n*n + 4*n*n*n
+		return 2*n*n + c20Focus() + 4*n*n*n
 	}
-	return 2 * n * n
+	return 2*n*n + c20Focus()
 }
 
 func init() {
@@ -60,6 +71,15 @@ func init() {
 				return c20In{Src: c20Repr[i/n] + sep + c20Repr[i%n], Mode: "tokens"}
 			}
 			i -= 2 * n * n
+			if i < c20Focus() {
+				na, nb, nc := len(c20FocusA), len(c20FocusB), len(c20FocusC)
+				k := i / (na * nb * nc)
+				i %= na * nb * nc
+				s1 := []string{"", "/**/"}[k%2]
+				s2 := []string{"", "/**/"}[k/2]
+				return c20In{Src: c20FocusA[i/(nb*nc)] + s1 + c20FocusB[(i/nc)%nb] + s2 + c20FocusC[i%nc], Mode: "tokens", Fam: "focus"}
+			}
+			i -= c20Focus()
 			if tier == "thorough" && i < 4*n*n*n {
 				s1 := []string{"", "/**/"}[(i/(n*n*n))%2]
 				s2 := []string{"", "/**/"}[(i/(n*n*n))/2]
@@ -81,7 +101,7 @@ func init() {
 		Check: c20Check,
 		Floor: func(tier string) int { return 20000 },
 		CounterFloors: func(tier string) map[string]int64 {
-			return map[string]int64{"rules_roundtripped": 8000, "rules_roundtripped_comments_skipped": 4000, "decls_roundtripped": 7000, "preludes_equivalent": 2500}
+			return map[string]int64{"focus_triples": 4000, "rules_roundtripped": 8000, "rules_roundtripped_comments_skipped": 4000, "decls_roundtripped": 7000, "preludes_equivalent": 2500}
 		},
 		Assumptions: []string{"the first tokenization L is webrender's own (pure round-trip relation, no reference tokenizer)", "inputs are valid UTF-8", "lists with parse-error tokens or EOF-flagged strings/urls are outside the property and skipped"},
 		Batch:       5000,
@@ -148,6 +168,9 @@ func c20Check(raw json.RawMessage) fw.Result {
 	if !utf8.ValidString(in.Src) {
 		res.Verdict = fw.Skip
 		return res
+	}
+	if in.Fam == "focus" {
+		res.Count("focus_triples", 1)
 	}
 	switch in.Mode {
 	case "tokens":
